@@ -161,7 +161,7 @@ def rule_B1(ctx: Ctx) -> None:
         ok = got is not None and got[0] == want[k]
         ctx.judge(fill, ok, {"dim": k, "store": got[1] if got else None}, exp,
                   "the wrong boundary is cleared: edges leaving the grid survive (and legitimate edges are deleted)")
-    rng_ok = isinstance(lp.iter, ast.Call) and dotted_of(lp.iter.func) == "range" and X.U(lp.iter.args[0]) == f"{arr}.shape[0]" and len(lp.iter.args) == 1
+    rng_ok = isinstance(lp.iter, ast.Call) and dotted_of(lp.iter.func) == "range" and len(lp.iter.args) == 1 and X.U(lp.iter.args[0]) == X.CT(f"{arr}.shape[0]")
     rets = X.returns_of(fill.node)
     ret_ok = len(rets) == 1 and X.U(rets[0].value) == arr and rets[0] in fill.node.body and fill.node.body.index(rets[0]) > fill.node.body.index(lp)
     ctx.judge(fill, rng_ok and ret_ok and raises_else, {"loop": X.U(lp.iter), "returns_after_loop": ret_ok, "raises_for_other_dims": raises_else}, exp)
@@ -292,7 +292,7 @@ def rule_B3(ctx: Ctx) -> None:
         for s in ast.walk(lp):
             if isinstance(s, ast.Assign) and isinstance(s.value, ast.Call) and X.U(s.value.func) == "stack.pop":
                 cur = X.U(s.targets[0])
-        ctx.judge(f, ends == {cur, chosen[0]} and d.get("condition", "").startswith(chosen[1]),
+        ctx.judge(f, ends == {cur, chosen[0]} and f"{chosen[1]}.sum()" in d.get("condition", ""),
                   {"endpoints": sorted(str(e) for e in ends), "current": cur, "chosen": chosen[0], "condition": d.get("condition")},
                   "the stored edge joins the popped cell and the chosen neighbour, oriented by the chosen neighbour's own delta")
     # start cell is visited before the loop
@@ -508,7 +508,7 @@ def rule_B7(ctx: Ctx) -> None:
     na = X.assignments_to(f.node, "n_accessible_cells")
     ok = any(X.U(x) == "n_total_cells" for x in na)
     tot = X.assignments_to(f.node, "n_total_cells")
-    ok = ok and len(tot) == 1 and X.U(tot[0]).replace(" ", "") in ("int(np.prod(grid_shape))", "np.prod(grid_shape)", "int(grid_shape[0]*grid_shape[1])")
+    ok = ok and len(tot) == 1 and X.same_expr(tot[0], "int(np.prod(grid_shape))", "np.prod(grid_shape)", "int(grid_shape[0]*grid_shape[1])", "math.prod(grid_shape)", "int(math.prod(grid_shape))")
     ctx.judge(f, ok, {"n_accessible_cells": [X.U(x) for x in na], "n_total_cells": [X.U(x) for x in tot]},
               "accessible_cells=None resolves to the total number of cells = prod(grid_shape)")
     depth_guard = None
